@@ -736,6 +736,44 @@ func c03R3(p *Prog, r *Report) {
 		term := seedPred.Instrs[len(seedPred.Instrs)-1]
 		okSeed = g.proveOnEdge(pc.Of(firstSN).Sub(pc.Of(seed)), false, seedPred, loop.Header, term, 0)
 	}
+	if !okSeed && seed != nil {
+		// the clamp may sit in a helper method of the group that returns the starting number:
+		// every return of the helper must be bounded by the first queued packet's number there
+		if hc, isCall := seed.(*ssa.Call); isCall && isModuleFn(hc.Call.StaticCallee()) && len(hc.Call.Args) > 0 && hc.Call.Args[0] == ssa.Value(fn.Params[0]) {
+			h := hc.Call.StaticCallee()
+			r.Fn(FuncName(h))
+			g2 := NewGuardCtx(p, h, nil)
+			var first2 ssa.Value
+			Instrs(h, func(in ssa.Instruction) {
+				c, ok := in.(*ssa.Call)
+				if !ok || c.Call.StaticCallee() == nil || c.Call.StaticCallee().Name() != "SequenceNumber" {
+					return
+				}
+				if u, ok := c.Call.Args[0].(*ssa.UnOp); ok {
+					if ia, ok := u.X.(*ssa.IndexAddr); ok {
+						if k, isC := constInt(ia.Index); isC && k == 0 {
+							if _, f, base, okf := FieldOf(ia.X); okf && f == "queue" && base == ssa.Value(h.Params[0]) {
+								first2 = c
+							}
+						}
+					}
+				}
+			})
+			nret, okAll := 0, first2 != nil
+			Instrs(h, func(in ssa.Instruction) {
+				ret, ok := in.(*ssa.Return)
+				if !ok || len(ret.Results) != 1 {
+					return
+				}
+				nret++
+				if first2 == nil || !InstrDominates(first2.(ssa.Instruction), ret) || !g2.Prove(g2.PC.Of(first2).Sub(g2.PC.Of(ret.Results[0])), ret) {
+					okAll = false
+				}
+			})
+			// the queue is not changed between the helper's call and the walk
+			okSeed = okAll && nret > 0 && hc.Block().Dominates(loop.Header)
+		}
+	}
 	r.Check(okSeed, "C03.R3", "the expected number starts no later than the first queued packet", p.Pos(fn.Pos()), "seed <= queue[0].SequenceNumber() proven (clamp)",
 		"nothing bounds the starting expected sequence number by the first queued packet's number: packets left in the queue by an earlier read (one group lagging) advance the count a second time and a later lost packet is not filled in")
 	// every element advances the expected number by exactly one on the back edge; filler while below
@@ -937,48 +975,147 @@ func c03R6R7(p *Prog, r *Report) {
 		_, f, _, okf := FieldOf(c.Call.Args[0])
 		return okf && f == "queue"
 	}
-	good := func(b *ssa.BasicBlock, succ int) bool {
+	// the index of the queue element whose number a SequenceNumber() call reads (nil: not an element of the queue)
+	snIndex := func(v ssa.Value) ssa.Value {
+		c, _ := stripConv(v).(*ssa.Call)
+		if c == nil || len(c.Call.Args) == 0 {
+			return nil
+		}
+		if u, ok := c.Call.Args[0].(*ssa.UnOp); ok {
+			if ia, ok := u.X.(*ssa.IndexAddr); ok {
+				if _, f, _, okf := FieldOf(ia.X); okf && f == "queue" {
+					return ia.Index
+				}
+			}
+		}
+		return nil
+	}
+	// an edge establishes the property for the current queue (est), or for the queue cut at
+	// element index pend (queue[pend] is not older than the common packet, or pend == len(queue))
+	edgeFact := func(b *ssa.BasicBlock, succ int) (est bool, pend ssa.Value) {
 		iff, ok := b.Instrs[len(b.Instrs)-1].(*ssa.If)
 		if !ok {
-			return false
+			return
 		}
 		bo, ok := iff.Cond.(*ssa.BinOp)
 		if !ok {
-			return false
+			return
 		}
 		t := succ == 0
 		k, isK := constInt(bo.Y)
+		at := func(idx ssa.Value, holds bool) (bool, ssa.Value) {
+			if !holds {
+				return false, nil
+			}
+			if idx == nil {
+				return true, nil // a sequence number not taken from the queue by index: the front element (as before)
+			}
+			if c, isC := constInt(idx); isC {
+				return c == 0, nil
+			}
+			return false, idx
+		}
 		switch {
 		case isSN(bo.X) && !isSN(bo.Y): // sn OP first
-			return (bo.Op == token.GEQ && t) || (bo.Op == token.LSS && !t)
+			return at(snIndex(bo.X), (bo.Op == token.GEQ && t) || (bo.Op == token.LSS && !t))
 		case isSN(bo.Y) && !isSN(bo.X): // first OP sn
-			return (bo.Op == token.LEQ && t) || (bo.Op == token.GTR && !t)
+			return at(snIndex(bo.Y), (bo.Op == token.LEQ && t) || (bo.Op == token.GTR && !t))
 		case isLenQueue(bo.X) && isK:
 			switch bo.Op {
 			case token.EQL:
-				return k == 0 && t
+				return k == 0 && t, nil
 			case token.NEQ:
-				return k == 0 && !t
+				return k == 0 && !t, nil
 			case token.GTR:
-				return k == 0 && !t
+				return k == 0 && !t, nil
 			case token.LEQ:
-				return k == 0 && t
+				return k == 0 && t, nil
 			case token.LSS:
-				return k == 1 && t
+				return k == 1 && t, nil
 			case token.GEQ:
-				return k == 1 && !t
+				return k == 1 && !t, nil
+			}
+		case isLenQueue(bo.Y) && !isK: // v OP len(queue): v == len, v >= len
+			if (bo.Op == token.EQL && t) || (bo.Op == token.NEQ && !t) || (bo.Op == token.GEQ && t) || (bo.Op == token.LSS && !t) {
+				return false, bo.X
+			}
+		case isLenQueue(bo.X) && !isK: // len(queue) OP v
+			if (bo.Op == token.EQL && t) || (bo.Op == token.NEQ && !t) || (bo.Op == token.LEQ && t) || (bo.Op == token.GTR && !t) {
+				return false, bo.Y
 			}
 		}
-		return false
+		return
 	}
-	bad := pathsNotEstablishing(fn, good, func(in ssa.Instruction) bool {
+	isQueueStore := func(in ssa.Instruction) (*ssa.Store, bool) {
 		st, ok := in.(*ssa.Store)
 		if !ok {
-			return false
+			return nil, false
 		}
 		_, f, _, okf := FieldOf(st.Addr)
-		return okf && f == "queue"
-	})
+		return st, okf && f == "queue"
+	}
+	type r7state struct {
+		b    *ssa.BasicBlock
+		ok   bool
+		pend ssa.Value
+	}
+	seen := map[r7state]bool{}
+	var bad []ssa.Instruction
+	var walk func(b *ssa.BasicBlock, ok bool, pend ssa.Value)
+	walk = func(b *ssa.BasicBlock, ok bool, pend ssa.Value) {
+		k := r7state{b, ok, pend}
+		if seen[k] {
+			return
+		}
+		seen[k] = true
+		for _, in := range b.Instrs {
+			if st, isQ := isQueueStore(in); isQ {
+				// queue = queue[pend:] makes the element just tested the first one (or the queue empty)
+				cut := false
+				if sl, isSl := st.Val.(*ssa.Slice); isSl && pend != nil && sl.Low == pend && sl.High == nil {
+					if _, f, _, okf := FieldOf(sl.X); okf && f == "queue" {
+						cut = true
+					}
+				}
+				ok, pend = cut, nil
+			}
+			if _, isRet := in.(*ssa.Return); isRet && !ok {
+				bad = append(bad, in)
+			}
+		}
+		for i, s := range b.Succs {
+			nok, npend := ok, pend
+			if est, pv := edgeFact(b, i); est {
+				nok = true
+			} else if pv != nil {
+				npend = pv
+			}
+			// the tested index seen through the phis of the successor
+			if npend != nil {
+				translated := false
+				for pi, pr := range s.Preds {
+					if pr != b {
+						continue
+					}
+					for _, in := range s.Instrs {
+						if ph, isPhi := in.(*ssa.Phi); isPhi && ph.Edges[pi] == npend && !translated {
+							npend = ph
+							translated = true
+						}
+					}
+				}
+				// on a back edge a value defined inside the loop names a new value in the next
+				// iteration: what was learnt about the old one no longer applies
+				if def, isIn := npend.(ssa.Instruction); isIn && !translated && s.Dominates(b) && s.Dominates(def.Block()) {
+					npend = nil
+				}
+			}
+			walk(s, nok, npend)
+		}
+	}
+	if len(fn.Blocks) > 0 {
+		walk(fn.Blocks[0], false, nil)
+	}
 	pos := p.Pos(fn.Pos())
 	if len(bad) > 0 {
 		pos = p.InstrPos(bad[0])
